@@ -8,8 +8,9 @@ executed command by a relation over (pre-state, op, post-state, result, observat
   meta["observe"]  also take metadata snapshots + audit events around the command (C14, C12)
 """
 import importlib
+from mc.engine import Viol
 
-from mc import ops, sub
+from mc import ops, sub, ref
 
 _mods = {}
 
@@ -29,6 +30,22 @@ def run_and_judge(ctx, pre, op, now, meta):
     obs = r[2] if observe else {}
     obs["root"] = ctx.root
     viols = []
+    # whatever a command wrote into an ascmhl folder must be readable by the independent XML reader: a file that is not even
+    # well-formed is a violation of the property under test (its oracle could only stumble over it), not a harness error
+    broken = []
+    for p, c in post.items():
+        if c is not None and pre.get(p) != c and ref.is_in_ascmhl(p) and (p.endswith(".mhl") or p.endswith("ascmhl_chain.xml")):
+            try:
+                (ref.read_manifest if p.endswith(".mhl") else ref.read_chain)(c)
+            except Exception as e:
+                broken.append((p, f"{type(e).__name__}: {e}"[:160]))
+    if broken:
+        for o in meta["oracles"]:
+            v = Viol(mod(o).PROP, "written-file-unreadable", {"cmd": op[0], "file": "chain" if broken[0][0].endswith(".xml") else "manifest"},
+                     f"{ops.label(op)} (exit {res.exit}) wrote {broken[0][0]} which the XML reader rejects: {broken[0][1]}")
+            v.case = {"pre": pre, "op": op, "now": now, "meta": {k: meta[k] for k in meta if not k.startswith("_")}, "oracle": o}
+            viols.append(v)
+        return res, post, viols
     for o in meta["oracles"]:
         vs = mod(o).judge(pre, op, post, res, obs, meta)
         for v in vs:
